@@ -26,6 +26,10 @@ def run(chk):
         confs.append(dict(n=int(rng.integers(1, 31 if big else 11)), p=float(rng.choice([0.0, 0.1, 0.3, 0.5, 0.8, 1.0, rng.random()])),
                           t=int(rng.integers(1, 201 if big else 30)), r=float(rng.choice([0.0, 1.0, 2.5, 3.57, 3.99, 4.0, 4 * rng.random()])),
                           sigma=float(rng.choice([0.0, 0.1, 0.5, 0.9, 1.0, rng.random()])), seed=int(rng.integers(0, 10000))))
+    # networks beyond any internal size threshold (sparse / blocked code paths): short runs, predicate + first steps in Coq
+    for nbig in ([128, 150] if chk.tier == "quick" else [128, 129, 150, 200, 256, 300, 400]):
+        confs.append(dict(n=nbig, p=float(rng.choice([0.02, 0.05, 0.1])), t=int(rng.integers(40, 120)),
+                          r=float(rng.choice([3.99, 4.0, 3.7])), sigma=float(rng.choice([0.1, 0.5, 1.0])), seed=int(rng.integers(0, 10000))))
     for c in confs:
         XY, A = logisic_dynamics(**c)
         XY2, A2 = logisic_dynamics(**c)
